@@ -69,8 +69,9 @@ void run(const char *what, const System &S, const typename Solver::params &prm, 
         return;
     }
     double t = S.true_relres(x);
-    // a diverged solve (NaN in x) reporting NaN is truthful; a finite report for a NaN residual is not
-    bool ok = (std::isnan(resid) && std::isnan(t)) || std::fabs(resid - t) <= 1e-8 * std::max(1.0, t);
+    // a diverged solve (non-finite x) reporting a non-finite residual is truthful (C10: "a truthfully reported non-converged
+    // (possibly non-finite) residual"); a finite report for a non-finite residual is not
+    bool ok = (!std::isfinite(resid) && !std::isfinite(t)) || std::fabs(resid - t) <= 1e-8 * std::max(1.0, t);
     std::cout << what << ": iters=" << iters << " reported=" << resid << " true=" << t << (ok ? "" : "   <-- MISMATCH") << std::endl;
     if (!ok) ++bad;
 }
